@@ -1068,6 +1068,12 @@ namespace
     if (nthreads < 1 || nthreads > 256 || conns < 1 || conns > 1024)
       return fail("threads/conns out of range");
 
+    long long rounds(1);
+    if (args.count("rounds"))
+    {
+      if (!get_int(args, "rounds", rounds, err))
+        return fail(err);
+    }
     long long connected_us(2000);
     if (args.count("connected_us"))
     {
@@ -1163,13 +1169,34 @@ namespace
       peer_threads.emplace_back([&, peer, port]
       {
         std::string perr;
+        const std::string get("GET /hello HTTP/1.1\r\nHost: localhost\r\n\r\n");
+        // rounds=<n>: n-1 short-lived connections first (connect, a few requests, close), so that connections come and
+        // go while others are being served (the server's collections are inserted into / erased from concurrently)
+        for (long long round(1); round < rounds; ++round)
+        {
+          Peer early;
+          if (!early.connect(port, true, 5000, perr))
+          { ++connect_fail; continue; }
+          std::string ebuf;
+          for (long long r(0); r < 2; ++r)
+          {
+            if (!early.write_all(get, 2000))
+              break;
+            ++sent;
+            int status(0);
+            if (read_response(early, ebuf, 2000, &status) == Resp::Ok)
+              ++answered;
+            else
+              break;
+          }
+          early.close();
+        }
         if (!peer->connect(port, true, 5000, perr))
         {
           ++connect_fail;
           return;
         }
 
-        const std::string get("GET /hello HTTP/1.1\r\nHost: localhost\r\n\r\n");
         std::string buf;
         for (long long r(0); r < reqs; ++r)
         {
